@@ -26,6 +26,13 @@ def streams(rng, tier, ctx):
         for i in range(n):
             r = rng.fork()
             it.op("=== gen%d" % i)
+            if i % 6 == 2:
+                # per-fragment acknowledgement flags of a packet with more than 32 / 64 fragments, one fragment lost
+                sim = H.big_packet_scenario(r, it, modes=(2, 3))
+                H.finish(sim, drain=True, max_ticks=200)
+                cid = "m%d" % i
+                cases.append((cid, sim.ops)); meta[cid] = sim
+                continue
             cfg = pick_cfg(r)
             cfg["bwA"] = cfg["bwB"] = r.pick([20000, 100000, 2_000_000])
             cfg["allocA"] = cfg["allocB"] = 200000
